@@ -428,6 +428,18 @@ func runC13(c *mon.Ctx) {
 		c.Eval()
 		c.Count("lax-component-cases")
 		c.Sig(fmt.Sprintf("lax-component|%v", code))
+		if want != model.OK {
+			// the same INVALID component as the stock type, offered to the container of the
+			// other type: the refusal still carries the component's own class
+			var ferr error
+			mon.Guard(func() {
+				ferr = (&psatoken.SwComponents[*extprof.LaxComponent]{}).Add(obs.RealComp(&cp))
+			})
+			c.Eval()
+			if got := obs.ClassOf(ferr); ferr == nil || got != want {
+				c.Violation(fmt.Sprintf("C13/lax-component/foreign-invalid-component:%s->%s", want, got), fmt.Sprintf("an invalid component of another concrete type offered to the container: class %s, expected the component's own class %s (%v)", got, want, ferr), map[string]any{"fields": fmt.Sprint(code)})
+			}
+		}
 		for gi, e := range []error{verr, cerr} {
 			gate := []string{"ValidateSwComponent", "SwComponents.Add"}[gi]
 			got := obs.ClassOf(e)
